@@ -10,8 +10,9 @@
   `Spec/HtmlAllow.lean` (theorems `strict_*_spec` in `Props/C14.lean`).
 -/
 import RumaModel.Model.Html
+import RumaModel.Spec.HtmlGlob
 namespace Ruma.Spec.HtmlPolicy
-open Ruma Ruma.Html
+open Ruma Ruma.Html Ruma.Spec.HtmlGlob
 
 /-- Elements dropped together with their content, by name. -/
 def elemRemoved (c : Cfg) (n : Str) : Bool :=
@@ -44,26 +45,112 @@ def attrListed (c : Cfg) : Bool := c.allowAttrs.isSome || c.useStrict
 def attrOkA (L : Lists) (c : Cfg) (el : Str) (a : Attr) : Prop :=
   attrOk L c el a.name = true ∧ (attrListed c = true → a.ns = [])
 
-/-- The value of attribute `a` on `el` starts with a denied scheme. -/
-def denied (c : Cfg) (el a value : Str) : Bool :=
-  schemesHit ((c.denySchemes.bind (mapGet · el)).bind (mapGet · a)) value
+/-! ### Values and classes
 
-/-- The schemes attribute `a` of `el` is restricted to (`none`: unrestricted). -/
+Stated with `mapGet` (lookup in a list collected from the builder's argument), list operations and
+the glob relation of `Spec/HtmlGlob.lean` only — no function of the model. That the model's
+`node_action` / `clean_element_attributes` compute these predicates is
+`Lemmas/HtmlPolicy.lean` (`denied_eq_model`, `schemeList_eq_model`, `valueOk_eq_model`,
+`classOk_eq_model`). -/
+
+/-- `value` starts with `scheme:` (exact, case-sensitive spelling, no leading whitespace). -/
+def hasScheme (value scheme : Str) : Bool := (scheme ++ [58]).isPrefixOf value
+
+/-- The entry of a per-element, per-attribute table. -/
+def cell {α : Type} (m : List (Str × List (Str × α))) (el a : Str) : Option α :=
+  (mapGet m el).bind (mapGet · a)
+
+/-- Does the mode's list count beside a list given to the builder? Not if the list was given with
+`ListBehavior::Override`; yes if it was given with `Add`, or not given at all. -/
+def modeCounts {α : Type} (l : Option (BList α)) : Bool :=
+  match l with
+  | some b => !b.override
+  | none => true
+
+/-- The value of attribute `a` on `el` starts with a denied scheme (`deny_schemes`). -/
+def denied (c : Cfg) (el a value : Str) : Bool :=
+  match c.denySchemes with
+  | none => false
+  | some m =>
+    match cell m el a with
+    | none => false
+    | some l => l.any (hasScheme value)
+
+/-- The schemes attribute `a` of `el` is restricted to (`none`: unrestricted): the entry of the
+list given with `allow_schemes`, if any, and — where the mode's lists count — the entry of the
+strict table when a mode is set and of the compat table in compat mode, chained; unrestricted if
+none of the three has an entry. -/
 def schemeList (L : Lists) (c : Cfg) (el a : Str) : Option (List Str) :=
-  if c.allowSchemes.isNone && !c.useStrict then none else attrSchemes (schemeCtx L c el) a
+  let given := match c.allowSchemes with
+    | some l => cell l.content el a
+    | none => none
+  let strict := if modeCounts c.allowSchemes && c.mode.isSome then cell L.schemesStrict el a else none
+  let compat :=
+    if modeCounts c.allowSchemes && c.mode == some .compat then cell L.schemesCompat el a else none
+  if given.isNone && strict.isNone && compat.isNone then none
+  else some (given.getD [] ++ strict.getD [] ++ compat.getD [])
 
 /-- The value is acceptable for attribute `a` of `el`: not denied, and if the attribute is
 restricted it starts with `scheme:` for one of its schemes. -/
 def valueOk (L : Lists) (c : Cfg) (el a value : Str) : Bool :=
-  !denied c el a value && schemesPass (schemeList L c el a) value
+  !denied c el a value &&
+  match schemeList L c el a with
+  | none => true
+  | some l => l.any (hasScheme value)
 
-/-- Class `cl` may appear in the `class` attribute of `el`: no remove pattern matches it, and if
-there is an allow list some allow pattern does. -/
+/-- Class `cl` may appear in the `class` attribute of `el`: no remove pattern of the element
+matches it, and if there is an allow list (a mode is set, or a list was given) some allow pattern
+of the element does — a pattern of the given list or, where the mode's list counts, of the mode's. -/
 def classOk (L : Lists) (c : Cfg) (el cl : Str) : Bool :=
-  !removedClass (c.removeClasses.bind (mapGet · el)) cl &&
-  (!(c.allowClasses.isSome || c.useStrict) ||
-    anyGlob (((c.allowClasses.bind (fun l => mapGet l.content el)).getD []) ++
-      ((if !isOverride c.allowClasses && c.useStrict then mapGet L.classes el else none).getD [])) cl)
+  let removePats := match c.removeClasses with
+    | some m => (mapGet m el).getD []
+    | none => []
+  let given := match c.allowClasses with
+    | some l => (mapGet l.content el).getD []
+    | none => []
+  let mode := if modeCounts c.allowClasses && c.mode.isSome then (mapGet L.classes el).getD [] else []
+  !matchesAny removePats cl &&
+  (!(c.allowClasses.isSome || c.mode.isSome) || matchesAny (given ++ mode) cl)
+
+/-! ### The documented replacements and the depth limit
+
+Likewise without functions of the model (`Lemmas/HtmlPolicy.lean`: `renamed_eq_model`,
+`renamedAttr_eq_model`, `tooDeep_eq_model`). -/
+
+/-- The name element `n` has after the documented replacements: its entry in the list given with
+`replace_elements`, if it has one; else, where the mode's list counts, the mode's replacement for
+a deprecated element; else `n` itself. -/
+def renamed (L : Lists) (c : Cfg) (n : Str) : Str :=
+  let given := c.replaceElements.bind (fun l => mapGet l.content n)
+  let mode :=
+    if modeCounts c.replaceElements && c.mode.isSome then mapGet L.deprecatedElements n else none
+  match given, mode with
+  | some x, _ => x
+  | none, some x => x
+  | none, none => n
+
+/-- The name attribute `a` of element `n` (its name before replacement) has after the documented
+replacements: the entry of the list given with `replace_attributes`, else the mode's. -/
+def renamedAttr (L : Lists) (c : Cfg) (n a : Str) : Str :=
+  let given := c.replaceAttrs.bind (fun l => cell l.content n a)
+  let mode :=
+    if modeCounts c.replaceAttrs && c.mode.isSome then cell L.deprecatedAttrs n a else none
+  match given, mode with
+  | some x, _ => x
+  | none, some x => x
+  | none, none => a
+
+/-- The maximum depth: the one given with `max_depth`, else the mode's (100), else none. -/
+def depthLimit (L : Lists) (c : Cfg) : Option Nat :=
+  match c.maxDepth with
+  | some m => some m
+  | none => if c.mode.isSome then some L.maxDepth else none
+
+/-- An element with `d` element ancestors is nested at or beyond the maximum depth. -/
+def tooDeep (L : Lists) (c : Cfg) (d : Nat) : Bool :=
+  match depthLimit L c with
+  | some m => decide (m ≤ d)
+  | none => false
 
 /-! ## Predicates on trees -/
 
@@ -115,10 +202,11 @@ mutual
 /-- The text that must survive sanitization, in order: everything outside the subtrees that are
 dropped — elements removed by name (after the documented replacements), `mx-reply` under
 reply-fallback removal, elements nested at or beyond the maximum depth (`d` counts *all* element
-ancestors in the input, also those that are merely not allowed), comments. -/
+ancestors in the input, also those that are merely not allowed), comments. (No function of the
+model.) -/
 def keptText (L : Lists) (c : Cfg) (d : Nat) : Node → Str
   | .elem n _ cs =>
-    if elemRemoved c (replaceNameOf L c n) || depthExceeded L c d then []
+    if elemRemoved c (renamed L c n) || tooDeep L c d then []
     else keptTextL L c (d + 1) cs
   | .text s => s
   | .other => []
@@ -141,22 +229,43 @@ end
 mutual
 /-- The elements that must survive sanitization, in document order: outside dropped subtrees
 (`keptText`), every element whose name — after the documented replacements — is allowed and whose
-attribute values are all acceptable is kept, with its attribute set filtered
-(`cleanAttrs`: disallowed attributes and classes taken out); every other element there is merely
-not allowed: it goes, its descendants stay. `d` counts all element ancestors in the input. -/
+attribute values are all acceptable (each under the attribute's name after the documented
+replacements) is kept; every other element there is merely not allowed: it goes, its descendants
+stay. `d` counts all element ancestors in the input.
+WHICH elements are kept, under which names and in which order is stated here without any function
+of the model. The attribute set a kept element carries is NOT restated: it is the model's
+`cleanAttrs … (replaceAttrsOf …)` (renamed attributes collected as an ordered set, then disallowed
+attributes and classes taken out); what the spec says about that set is `clean_attrs_allowed`,
+`clean_schemes_allowed`, `clean_classes_allowed`. -/
 def keptElems (L : Lists) (c : Cfg) (d : Nat) : Node → List (Str × List Attr)
   | .elem n as cs =>
-    let n' := replaceNameOf L c n
-    let as' := replaceAttrsOf L c n as
-    if elemRemoved c n' || depthExceeded L c d then []
-    else if elemOk L c n' && as'.all (fun a => valueOk L c n' a.name a.value) then
-      (n', cleanAttrs L c n' as') :: keptElemsL L c (d + 1) cs
+    let n' := renamed L c n
+    if elemRemoved c n' || tooDeep L c d then []
+    else if elemOk L c n' && as.all (fun a => valueOk L c n' (renamedAttr L c n a.name) a.value) then
+      (n', cleanAttrs L c n' (replaceAttrsOf L c n as)) :: keptElemsL L c (d + 1) cs
     else keptElemsL L c (d + 1) cs
   | .text _ => []
   | .other => []
 def keptElemsL (L : Lists) (c : Cfg) (d : Nat) : List Node → List (Str × List Attr)
   | [] => []
   | n :: t => keptElems L c d n ++ keptElemsL L c d t
+end
+
+mutual
+/-- The names of the elements that must survive sanitization, in document order — `keptElems`
+without the attribute sets: no function of the model at all. -/
+def keptNames (L : Lists) (c : Cfg) (d : Nat) : Node → List Str
+  | .elem n as cs =>
+    let n' := renamed L c n
+    if elemRemoved c n' || tooDeep L c d then []
+    else if elemOk L c n' && as.all (fun a => valueOk L c n' (renamedAttr L c n a.name) a.value) then
+      n' :: keptNamesL L c (d + 1) cs
+    else keptNamesL L c (d + 1) cs
+  | .text _ => []
+  | .other => []
+def keptNamesL (L : Lists) (c : Cfg) (d : Nat) : List Node → List Str
+  | [] => []
+  | n :: t => keptNames L c d n ++ keptNamesL L c d t
 end
 
 /-- An element with this name and these attributes, `d` element ancestors deep, is kept as it is:
